@@ -26,6 +26,7 @@ import (
 	"time"
 
 	"github.com/cube2222/octosql/plugins/verifharness/core"
+	"github.com/cube2222/octosql/plugins/verifharness/props/fileh"
 )
 
 func init() { core.Register("C23", Run) }
@@ -117,6 +118,9 @@ func jsonChildCases(c *core.Ctx, extra int, big bool) []Case {
 	for _, n := range jsonBoundarySizes {
 		if n > 5000 && !big {
 			continue
+		}
+		if core.Quick(c) && !big && !(n == 1 || n == 64 || n == 65 || n == 129 || n == 4097) {
+			continue // quick tier: delay seeds 2..5 run a reduced boundary set
 		}
 		cs = append(cs, Case{ID: fmt.Sprintf("jsonb-%d", n), Kind: "json", N: n})
 	}
@@ -363,12 +367,13 @@ func Run(c *core.Ctx) core.FinishOpts {
 	if os.Getenv(childEnv) != "" {
 		childMain(c) // never returns
 	}
+	fileh.ApplyReplay(c)
 	opts := core.FinishOpts{
 		Level: "exploration",
 		Rule: "cases = generated files with kept ground truth (json: random nested specs, first <=40 rows free, later rows re-draw a preview row's shape; csv/tsv: typed and mixed columns, " +
 			"quoting, header on/off; lines: 8 separators, lines around the 64 KiB token limit; parquet: required/optional/repeated/LIST/group columns), each materialised with all, " +
 			"some or none of the columns; legs = in-process, child processes GOMAXPROCS {1,2,4,16} x {no delay, 5 delay seeds}, race build, CLI files, CLI stdin in chunks; " +
-			"non-trivial = at least 2 rows and 1 compared cell, compared completely without discrepancy; distinct by (leg, file content hash, requested columns / chunking)",
+			"non-trivial = at least 2 rows and 1 compared cell, counts equal and every cell compared to the end (discrepancies found are reported separately); distinct by (leg, file content hash, requested columns / chunking)",
 		Floor: c.Pick(250, 5000),
 		Assumptions: []string{"ground truth = what the generator serialised; numbers are judged against strconv.ParseFloat of the literal (correct rounding)",
 			"encoding/json (strict decode of -o json), strconv, time.Parse are trusted", "parquet fixtures are written by the pinned parquet-go fork's row writer (trusted to write the levels it is given)",
